@@ -11,5 +11,5 @@ INIT Init
 NEXT Next
 VIEW view
 INVARIANTS TypeOK IndexesDescribeChain
-PROPERTIES ReadsAnswerFromChainStrict RevertedNotFound FinalityFromL1Head L1AcceptedClamped ReadsArePure
+PROPERTIES ReadsAnswerFromChainStrict RevertedNotFound FinalityFromL1Head L1AcceptedClamped ReadsArePure RestartIsNoOp InFlightAnswersFromAHeldChain
 CHECK_DEADLOCK FALSE
